@@ -174,8 +174,29 @@ def envCfgWrite (s : Sys) (c : Cfg) (inj : List Inj) (last : Option Str) : Sys Ã
   | .conflict => (sideWrite (touchCfg s) v.aVals last, false, [(true, j)])
   | .sideOnly => (sideWrite s v.aVals last, true, [(true, j)])
 
-/-- one `Reconcile` of the configuration reconciler. -/
-def stepCfg (s : Sys) (ansName : Str) (inj : List Inj) (last : Option Str) : Sys Ã— Out :=
+def natStr (n : Nat) : Str := (toString n).toList
+
+/-- the text the harness prints for a request (canonical: used to name the order in which the
+    re-synchronisation requests of one invocation reached the device, which is Go map order) -/
+def reqKey (r : DevReq) : Str :=
+  'e' :: natStr r.election ++ ":del[".toList ++ (",".toList).intercalate r.deletes ++ "]upd[".toList ++
+  (",".toList).intercalate (r.updates.map fun u => u.1 ++ '=' :: u.2) ++ "]->".toList ++ r.answer
+
+def insertReq (x : DevReq) : List DevReq â†’ List DevReq
+  | [] => [x]
+  | y :: rest => if OnosVerif.Path.strLt (reqKey x) (reqKey y) then x :: y :: rest else y :: insertReq x rest
+
+/-- the requests in the order `order` names (positions in the list sorted by `reqKey`); anything
+    that is not a permutation leaves the sorted order -/
+def arrival (reqs : List DevReq) (order : List Nat) : List DevReq :=
+  let sorted := reqs.foldr insertReq []
+  if order.length = sorted.length && (List.range sorted.length).all (fun i => order.contains i) then
+    order.filterMap (sorted[Â·]?)
+  else sorted
+
+/-- one `Reconcile` of the configuration reconciler; `order` resolves the Go map order in which the
+    index groups are sent. -/
+def stepCfg (s : Sys) (ansName : Str) (inj : List Inj) (last : Option Str) (order : List Nat := []) : Sys Ã— Out :=
   let c := s.cfg
   let write (c' : Cfg) (s0 : Sys) (reqs : List DevReq) : Sys Ã— Out :=
     let (s', failed, trace) := envCfgWrite s0 c' inj last
@@ -197,7 +218,7 @@ def stepCfg (s : Sys) (ansName : Str) (inj : List Inj) (last : Option Str) : Sys
     | some reqs =>
       let reqs := reqs.map fun r => { r with answer := name }
       if name = "ok".toList then
-        let s1 := { s with dev := reqs.foldl devApply s.dev }
+        let s1 := { s with dev := (arrival reqs order).foldl devApply s.dev }
         write { c with aTerm := c.term, state := .synchronized } s1 reqs
       else
         match reqs with
@@ -262,7 +283,7 @@ inductive Action
   | append (vals : Values)
   | rollback (i : Nat)
   | tx (i : Nat) (verdict : Verdict) (ans : Str) (inj : List Inj) (last : Option Str)
-  | cfg (ans : Str) (inj : List Inj) (last : Option Str)
+  | cfg (ans : Str) (inj : List Inj) (last : Option Str) (order : List Nat)
   | mast (pick : Option Str) (inj : List Inj) (last : Option Str)
   | env (e : EnvOp)
 deriving Repr
@@ -271,7 +292,7 @@ def step (s : Sys) : Action â†’ Sys
   | .append vals => nbAppend s vals
   | .rollback i => (nbRollback s i).1
   | .tx i verdict ans inj last => (stepTx s i verdict ans inj last).1
-  | .cfg ans inj last => (stepCfg s ans inj last).1
+  | .cfg ans inj last order => (stepCfg s ans inj last order).1
   | .mast pick inj last => (stepMast s pick inj last).1
   | .env e => stepEnv s e
 
